@@ -36,15 +36,31 @@ impl Manager {
         let mut cfg = Cfg::new_with_predefined_call_names(nodes, &Some(interrupt_call_names))?;
         NodeDirectionPass::run(&mut cfg)?;
         EliminateDeadCodeDirectionsPass::run(&mut cfg)?;
-        AvailableValuePass::run(&mut cfg)?;
-        EcallTerminationPass::run(&mut cfg)?;
+        Self::analyze_values_until_exits_are_stable(&mut cfg)?;
         FunctionMarkupPass::run(&mut cfg)?;
 
-        AvailableValuePass::run(&mut cfg)?;
-        EcallTerminationPass::run(&mut cfg)?;
+        Self::analyze_values_until_exits_are_stable(&mut cfg)?;
         // EliminateDeadCodeDirectionsPass::run(&mut cfg)?; // to eliminate ecall terminated code
         LivenessPass::run(&mut cfg)?;
         Ok(cfg)
+    }
+
+    /// Run the value analysis and cut the edges after program exits, until
+    /// no new exit is found.
+    ///
+    /// Cutting the edges after a known exit ecall can make more values known
+    /// (and with them, more exits). The value facts must describe the final
+    /// graph, so the value analysis has to be the last one to find nothing new.
+    fn analyze_values_until_exits_are_stable(cfg: &mut Cfg) -> Result<(), Box<CfgError>> {
+        let count_edges = |cfg: &Cfg| cfg.iter().map(|node| node.nexts().len()).sum::<usize>();
+        loop {
+            AvailableValuePass::run(cfg)?;
+            let edges_before = count_edges(cfg);
+            EcallTerminationPass::run(cfg)?;
+            if count_edges(cfg) == edges_before {
+                return Ok(());
+            }
+        }
     }
     pub fn run_diagnostics(cfg: &Cfg, errors: &mut DiagnosticManager) {
         SaveToZeroCheck::run(cfg, errors);
